@@ -1,11 +1,11 @@
 package main
 
 import (
-	"sort"
 	"flag"
 	"fmt"
 	"os"
 	"path/filepath"
+	"sort"
 	"strconv"
 	"time"
 
